@@ -101,6 +101,9 @@ pub enum Op {
     /// `requirements().require` (1), `contains_at_top` (2), `find` (3) - a borrow does not make
     /// a state absent
     PresentWhileBorrowedMut(u8, u8),
+    /// `best_objective_value()` / `best_individual()` while a shared guard on the best-individual
+    /// memory is alive: readers next to readers are never refused
+    BestWhileShared,
     /// `try_get_multiple_mut::<(Ta, Tb[, Tc])>()` for entry `entry` of the tuple catalogue, then
     /// `vals` written through the references: every element resolves on its own to the
     /// innermost scope holding its type
@@ -332,6 +335,10 @@ impl Model {
                     Ret::NotFound
                 }
             }
+            Op::BestWhileShared => match self.get(TAG_BEST) {
+                Some(bits) if bits != NONE => Ret::Opt(Some(bits)),
+                _ => Ret::Opt(None),
+            },
             Op::PresentWhileBorrowedMut(t, which) => match which {
                 1 => {
                     if self.find(*t).is_some() {
@@ -654,6 +661,21 @@ pub fn apply_real(op: &Op, st: &mut St) -> Ret {
                 }
             }
         }),
+        Op::BestWhileShared => {
+            let ask = |st: &St| match guarded(|| {
+                let via_value = st.best_objective_value().map(|o| o.value().to_bits());
+                let via_individual = st.best_individual().map(|i| i.objective().value().to_bits());
+                (via_value, via_individual)
+            }) {
+                Ok((a, b)) if a == b => Ret::Opt(a),
+                Ok((a, b)) => Ret::Unexpected(format!("best_objective_value() = {a:?} but best_individual() = {b:?}")),
+                Err(_) => Ret::Panicked,
+            };
+            match st.try_borrow::<BestIndividual<EP>>() {
+                Ok(_guard) => ask(st),
+                Err(_) => ask(st),
+            }
+        }
         Op::PresentWhileBorrowedMut(t, which) => with_ty!(*t, T => {
             let ask = |st: &St| match guarded(|| match *which {
                 1 => match st.requirements().require::<EP, T>() {
@@ -767,9 +789,10 @@ impl<'a> OpGen<'a> {
                     let vals = (0..n).map(|_| self.val()).collect();
                     Op::MultiWrite { entry, vals }
                 }
-                99 => match self.g.below(3) {
+                99 => match self.g.below(4) {
                     0 => Op::SetWhileBorrowed(t, self.g.chance(0.5), self.val()),
                     1 => Op::GetWhileBorrowedMut(t),
+                    2 => Op::BestWhileShared,
                     _ => Op::PresentWhileBorrowedMut(t, self.g.below(4) as u8),
                 },
                 _ => continue,
